@@ -27,9 +27,18 @@ argcounts: dict[str, int] = {'type': 1}
 
 unsafe_builtins = {
     'breakpoint',  # Remote code execution and interactive shell access
+    'compile',
+    'eval',
+    'exec',
+    'open',  # File system access
+    'input',  # Reads from the process' standard input
+    'exit',  # site helpers: close stdin and raise SystemExit, start the pager
+    'quit',
+    'help',
     'getattr',  # Attribute-based sandbox escapes and manipulation
     'hasattr',
     'setattr',
+    'delattr',
     'dir',  # Introspection and environment mapping
     'globals',
     'id',
